@@ -38,18 +38,25 @@ build_date() {
 #
 # Generate a new build directory path.
 build_id() {
-	local _c
+	local _c=0
 	local _d
+	local _n
+	local _p
 
 	_d="$(date '+%Y-%m-%d')"
-	_c="$(find "$1" -type d -name "${_d}*" | wc -l)"
-	_c="$((_c + 1))"
-	# The count goes down once robsd-clean has removed an older directory
-	# of today, step to the next name that is not taken.
-	while [ -e "$1/${_d}.${_c}" ] || [ -L "$1/${_d}.${_c}" ]; do
-		_c="$((_c + 1))"
+	# Continue after the largest suffix in use today. Counting the
+	# directories of today is not enough: the count goes down once
+	# robsd-clean has removed an older one and the name of a removed
+	# invocation, sorting before the ones still present, would be handed
+	# out again.
+	for _p in "$1/${_d}".*; do
+		_n="${_p##*.}"
+		case "${_n}" in
+		""|0*|*[!0-9]*)	continue;;
+		esac
+		[ "${_n}" -gt "${_c}" ] && _c="${_n}"
 	done
-	printf '%s.%d\n' "${_d}" "${_c}"
+	printf '%s.%d\n' "${_d}" "$((_c + 1))"
 }
 
 # build_init build-dir
